@@ -1,7 +1,7 @@
 from _engine_common import ENG, EXEC_STUBS
 PROPERTY = dict(
     level='model_checking',
-    level_text='Bounded model checking of the task protocol and the completion hand-shake on the real engine loop: (P1) per phase, for an arbitrary task, start/prior-value/provide-value/inputs-available are delivered exactly once and in order (demandRule and one executeTasks pass from symbolic states); (P2) the finished-task and finished-input passes treat each completed task independently of arrival order (two tasks, both arrival orders symbolic); (P3) lost wake-up: the completing thread (the real taskIsComplete) is injected before each acquisition of the finished-queue mutex, one query per injection point, and the engine must never block while a completion is queued. Data-race freedom of other shared fields and real multi-thread schedules are NOT decided.',
+    level_text='Bounded model checking of the task protocol and the completion hand-shake on the real engine loop: (P1) per phase, for an arbitrary task, start/prior-value/provide-value/inputs-available are delivered exactly once and in order (demandRule and one executeTasks pass from symbolic states); (P2) the finished-task and finished-input passes treat each completed task independently of arrival order (two completed tasks, both arrival orders, one query each); (P3) lost wake-up: the completing thread (the real taskIsComplete) is injected before each acquisition of the finished-queue mutex, one query per injection point, and the engine must never block while a completion is queued. Data-race freedom of other shared fields and real multi-thread schedules are NOT decided.',
     level_note='Trusted: as C01, plus the sequentialisation argument for P3: both sides touch finishedTaskInfos only under finishedTaskInfosMutex, so interleavings matter only at lock boundaries (pthread_mutex_lock of that mutex is the interleaving point; condition_variable::wait is an environment stub that asserts the queue is empty and lets the still-computing task report).',
     bounds='tasks <= 2, requests <= 1 per task, injection points k = 0..6 (enumerated, one query each), values 1 byte, epochs/flags symbolic',
     outside='more than two concurrent tasks; data races on waitCount/inputRequests; real threads; discovery/cancellation calls racing with completion',
@@ -14,4 +14,6 @@ OBLIGATIONS = [
          expect_functions=['BuildEngineImpl12executeTasks', 'BuildEngineImpl14taskIsComplete'], stubs=EXEC_STUBS, unwind=4, params_quick=[{'VF_INJECT_AT': -1}, {'VF_INJECT_AT': -1, 'VF_READY_ONLY': 1}], timeout=600),
     dict(ENG, name='P3.lost-wakeup', harness='engine/h_exec.cpp', entry='harness_exec', noinline=['BuildEngineImpl12executeTasks', 'BuildEngineImpl14taskIsComplete'],
          expect_functions=['BuildEngineImpl12executeTasks', 'BuildEngineImpl14taskIsComplete'], stubs=EXEC_STUBS, unwind=4, params_quick=[{'VF_INJECT_AT': k} for k in range(0, 7)], timeout=600),
+    dict(ENG, name='P2.arrival-order', harness='engine/h_two.cpp', entry='harness_two', noinline=['BuildEngineImpl12executeTasks', 'BuildEngineImpl14taskIsComplete'],
+         expect_functions=['BuildEngineImpl12executeTasks', 'BuildEngineImpl14taskIsComplete'], stubs=EXEC_STUBS, unwind=4, params_quick=[{'VF_ORDER': 0}, {'VF_ORDER': 1}], timeout=600, cbmc_flags=['--object-bits', '10']),
 ]
